@@ -60,7 +60,7 @@ META = dict(
     level_text="Arity-respecting expressions over all of jelly's tags (depth <= 5) are unjellied under policies built from the real SecurityOptions API (default, allowBasicTypes, allowTypes, allowModules, allowInstancesOf). Every name resolution, stand-in module attribute lookup, lazy import and blank instantiation during unjelly is checked against allowed sets derived by the harness from the policy data; returned graphs are walked. Round trip: random graphs (<= 10 nodes) with sharing and cycles through lists, dicts, sets, tuples, frozensets, instances and bound methods are compared up to isomorphism. Sampled, not exhaustive.",
     level_note="Trusted: the harness' model of which tags evaluate which children (written from jelly's documented s-expression forms), the wrappers installed in twisted.spread.jelly's namespace (namedAny, namedObject, __import__, _createBlank) and the recording module class. A resolution performed through some other route would only be seen if it touches a stand-in module, imports a tracked unloaded module or changes the result. Returning an object that an allowed module merely re-exports through the function tag is not asserted either way (DESIGN N).",
     design_ref="§5 C45",
-    rule="sec case = (policy, expression); non-trivial = the expression names a module the policy does not allow under a tag the policy allows (in an evaluated position); distinct by canonical JSON. rt case = (policy, graph); non-trivial = the graph has a shared mutable node or a cycle; distinct by canonical JSON.",
+    rule="sec case = (policy, expression); non-trivial = the expression names a module the policy does not allow under a tag the policy allows (in an evaluated position); distinct by canonical JSON. rt case = (policy, graph); non-trivial = the graph has a shared mutable node, a cycle, or two or more instances whose serialized state is a container built afresh by __getstate__/getStateFor; distinct by canonical JSON.",
 )
 
 # --------------------------------------------------------------------------
@@ -86,6 +86,36 @@ class Other:
 def helper():
     return "helper"
 const = 42
+# instances whose serialized state is a container built afresh by every
+# __getstate__ call (nothing else keeps it alive once it has been jellied)
+class FreshDict:
+    def __getstate__(self):
+        return {k: v for k, v in self.__dict__.items()}
+    def __setstate__(self, state):
+        self.__dict__ = state if isinstance(state, dict) else {"_wrong_state": type(state).__name__}
+class FreshNested:
+    def __getstate__(self):
+        return {"inner": {**self.__dict__}, "n": len(self.__dict__)}
+    def __setstate__(self, state):
+        inner = state.get("inner") if isinstance(state, dict) else None
+        self.__dict__ = inner if isinstance(inner, dict) else {"_wrong_state": type(state).__name__}
+def _pairs(self, state, kind):
+    # (a state of the wrong shape is recorded, so that the comparison reports it)
+    if type(state) is not kind or any(type(p) is not kind or len(p) != 2 for p in state):
+        self.__dict__["_wrong_state"] = type(state).__name__
+        return
+    for k, v in state:
+        self.__dict__[k] = v
+class FreshList:
+    def __getstate__(self):
+        return [[k, v] for k, v in sorted(self.__dict__.items())]
+    def __setstate__(self, state):
+        _pairs(self, state, list)
+class FreshTuple:
+    def __getstate__(self):
+        return tuple((k, v) for k, v in sorted(self.__dict__.items()))
+    def __setstate__(self, state):
+        _pairs(self, state, tuple)
 '''
 _SRC_DANGER = '''
 calls = []
@@ -208,6 +238,15 @@ def env():
     jelly.setUnjellyableForClass(b"verif_c45_reg.Reg", Reg)
     jelly.setUnjellyableForClass(b"verifreg", Reg)
     e.Reg = Reg
+
+    class RegFresh(jelly.Jellyable, jelly.Unjellyable):
+        def getStateFor(self, jellier):
+            return {**self.__dict__}
+    RegFresh.__module__ = "verif_c45_reg"
+    RegFresh.__qualname__ = "RegFresh"
+    regmod.RegFresh = RegFresh
+    jelly.setUnjellyableForClass(b"verif_c45_reg.RegFresh", RegFresh)
+    e.RegFresh = RegFresh
 
     import builtins
     import pickle
@@ -419,16 +458,16 @@ def _run_sec(ctx, case):
     del e.events[:]
     named = []
     blanks = []
-    orig = (jelly.namedAny, jelly.namedObject, jelly._createBlank)
-    had_import = "__import__" in jelly.__dict__
+    # wrap whichever resolvers jelly's namespace has (the set of imported helpers may change)
+    jd = jelly.__dict__
+    orig = {n: jd[n] for n in ("namedAny", "namedObject", "namedModule", "namedClass", "_createBlank") if n in jd}
+    had_import = "__import__" in jd
 
-    def w_namedAny(name):
-        named.append(("namedAny", name))
-        return orig[0](name)
-
-    def w_namedObject(name):
-        named.append(("namedObject", name))
-        return orig[1](name)
+    def resolver(fn_name):
+        def w(name):
+            named.append((fn_name, name))
+            return orig[fn_name](name)
+        return w
 
     def w_import(name, *a, **k):
         named.append(("__import__", name))
@@ -437,9 +476,10 @@ def _run_sec(ctx, case):
     def w_createBlank(cls):
         if isinstance(cls, type):
             blanks.append(cls)
-        return orig[2](cls)
+        return orig["_createBlank"](cls)
 
-    jelly.namedAny, jelly.namedObject, jelly._createBlank = w_namedAny, w_namedObject, w_createBlank
+    for n in orig:
+        jd[n] = w_createBlank if n == "_createBlank" else resolver(n)
     jelly.__dict__["__import__"] = w_import
     e.active = True
     outcome = None
@@ -454,16 +494,16 @@ def _run_sec(ctx, case):
             outcome = "error:" + type(exc).__name__
     finally:
         e.active = False
-        jelly.namedAny, jelly.namedObject, jelly._createBlank = orig
+        jd.update(orig)
         if not had_import:
-            del jelly.__dict__["__import__"]
+            del jd["__import__"]
     lazily = reset_lazy(e)
 
     # ---- oracle 1: names resolved by jelly
     for fn, name in named:
         if not isinstance(name, str):
             continue
-        modpart = name if fn == "__import__" else name.rpartition(".")[0]
+        modpart = name if fn in ("__import__", "namedModule") else name.rpartition(".")[0]
         # (resolving an allowed module itself, or a parent package of one, is fine too)
         if not (module_ok(modpart, mset) or on_the_way(name, mset)):
             via = _via(expr, name)
@@ -535,6 +575,9 @@ def _run_sec(ctx, case):
     if outcome.startswith("error:"):
         ctx.count("sec: " + outcome)
     ctx.count("sec: well-formed" if wellformed else "sec: malformed")
+    if wellformed and P in mset and HID not in mset and any(
+            r[0] in ("module", "class") and (r[1] == HID or r[1].startswith(HID + ".")) for r in req):
+        ctx.count("sec: names the not yet imported submodule of an allowed package (itself not allowed)")
     if named:
         ctx.count("sec: some name resolved (allowed)")
     if blanks:
@@ -671,10 +714,17 @@ def _atom(e, a):
     return a
 
 
+FRESH_STATE_CLASSES = ("FreshDict", "FreshNested", "FreshList", "FreshTuple", "RegFresh")
+ATOM_STATE_ONLY = ("FreshList", "FreshTuple")     # their __setstate__ copies, so no back references through them
+
+
 def build_graph(e, g):
     nodes = g["nodes"]
     objs = [None] * len(nodes)
-    kinds = {"Good": e.classes[A + ".Good"], "PubC": e.classes[PUB + ".PubC"], "Reg": e.Reg}
+    kinds = {"Good": e.classes[A + ".Good"], "PubC": e.classes[PUB + ".PubC"], "Reg": e.Reg, "RegFresh": e.RegFresh}
+    for fresh in FRESH_STATE_CLASSES:
+        if fresh not in kinds:
+            kinds[fresh] = e.table[A + "." + fresh]
     for i, n in enumerate(nodes):
         k = n["k"]
         if k == "list":
@@ -828,6 +878,31 @@ def compare_graphs(orig, res):
     go(orig, res, "root")
 
 
+def _reachable(g):
+    nodes = g["nodes"]
+    if not (isinstance(g["root"], dict) and "n" in g["root"]):
+        return set()
+
+    def refs(n):
+        out = []
+        if n["k"] in ("list", "tuple", "set", "frozenset"):
+            out = n["c"]
+        elif n["k"] == "dict":
+            out = [x for kv in n["c"] for x in kv]
+        elif n["k"] == "inst":
+            out = [v for _, v in n["c"]]
+        elif n["k"] == "meth":
+            out = [n["self"]]
+        return [r["n"] for r in out if isinstance(r, dict) and "n" in r]
+    reach, todo = set(), [g["root"]["n"]]
+    while todo:
+        i = todo.pop()
+        if i not in reach:
+            reach.add(i)
+            todo.extend(refs(nodes[i]))
+    return reach
+
+
 def graph_features(g):
     """(has shared mutable node, has cycle)"""
     nodes = g["nodes"]
@@ -892,8 +967,9 @@ def _run_rt(ctx, case):
     obj = build_graph(e, g)
     if case["policy"] == "secure":
         so = jelly.SecurityOptions()
-        so.allowInstancesOf(e.classes[A + ".Good"], e.classes[PUB + ".PubC"])
-        so.allowTypes("function", "method", "verif_c45_reg.Reg")
+        so.allowInstancesOf(e.classes[A + ".Good"], e.classes[PUB + ".PubC"],
+                            *[e.table[A + "." + c] for c in FRESH_STATE_CLASSES if c != "RegFresh"])
+        so.allowTypes("function", "method", "verif_c45_reg.Reg", "verif_c45_reg.RegFresh")
         so.allowModules(A, P, PUB)
         sexp = jelly.jelly(obj, so)
         res = jelly.unjelly(sexp, so)
@@ -912,13 +988,18 @@ def _run_rt(ctx, case):
     ctx.count(f"rt: policy={case['policy']}")
     for k in sorted({n["k"] for n in g["nodes"]}):
         ctx.count(f"rt: has {k}")
+    nfresh = sum(1 for i in _reachable(g) if g["nodes"][i]["k"] == "inst" and g["nodes"][i]["cls"] in FRESH_STATE_CLASSES)
+    if nfresh >= 2:
+        ctx.count("rt: >=2 instances whose state is a fresh container (__getstate__/getStateFor)")
+    elif nfresh == 1:
+        ctx.count("rt: 1 instance whose state is a fresh container")
     if shared:
         ctx.count("rt: shared mutable node")
     if cyc:
         ctx.count("rt: cycle")
-    if shared or cyc:
+    if shared or cyc or nfresh >= 2:
         ctx.nontrivial(dumps(case))
-        ctx.count("nontrivial (shared or cyclic graph)")
+        ctx.count("nontrivial (shared or cyclic graph, or >=2 fresh-state instances)")
         if len(dumps(case)) < 500:
             ctx.sample(case)
 
@@ -943,7 +1024,9 @@ DOTTED = (
        "verif_c45_reg.Reg"]
 )
 CLASS_NAMES = [A + ".Good", A + ".Good", PUB + ".PubC", PUB + ".GoodAlias", A + ".Other", A + ".Danger",
-               F + ".Danger", AX + ".Evil", "subprocess.Popen", "socket.socket", HID + ".HiddenC", "builtins.object"]
+               F + ".Danger", AX + ".Evil", "subprocess.Popen", "socket.socket", HID + ".HiddenC", "builtins.object",
+               # a submodule / top-level module that is not imported yet, named where a class is expected
+               HID, HID, U, P + ".pub"]
 
 
 def _b(s):
@@ -1062,7 +1145,12 @@ def rt_graphs(draw):
     for i, k in enumerate(kinds):
         if k == "meth" and "inst" not in kinds[:i]:
             kinds[i] = "inst"
-    clsnames = [draw(st.sampled_from(["Good", "Good", "PubC", "Reg"])) if k == "inst" else None for k in kinds]
+    # one graph in three takes all its instances from the classes with custom, freshly built state
+    fresh_mode = draw(st.sampled_from([0, 1, 2])) == 1
+    pool = list(FRESH_STATE_CLASSES) if fresh_mode else ["Good", "Good", "PubC", "Reg"] + list(FRESH_STATE_CLASSES)
+    if fresh_mode:
+        kinds = [draw(st.sampled_from(["inst", k])) if k != "meth" else k for k in kinds]
+    clsnames = [draw(st.sampled_from(pool)) if k == "inst" else None for k in kinds]
     hashable = [None] * n          # decided as nodes are defined (tuples depend on their members)
     nodes = [None] * n
 
@@ -1112,7 +1200,10 @@ def rt_graphs(draw):
                 c.append([kr, pick(i, False, False)])
             nodes[i] = {"k": k, "c": c}
         elif k == "inst":
-            c = [[draw(st.sampled_from(["a", "b", "data"])), pick(i, False, False)] for _ in range(draw(st.integers(0, 3)))]
+            if clsnames[i] in ATOM_STATE_ONLY:
+                c = [[draw(st.sampled_from(["a", "b", "data"])), draw(_rt_atoms)] for _ in range(draw(st.integers(0, 3)))]
+            else:
+                c = [[draw(st.sampled_from(["a", "b", "data"])), pick(i, False, False)] for _ in range(draw(st.integers(0, 3)))]
             nodes[i] = {"k": k, "cls": clsnames[i], "c": c}
         else:
             insts = [j for j in range(i) if kinds[j] == "inst" and clsnames[j] in ("Good", "PubC")]
@@ -1123,22 +1214,39 @@ def rt_graphs(draw):
             else:
                 nodes[i] = {"k": "meth", "self": {"n": draw(st.sampled_from(insts))}, "name": "meth"}
                 hashable[i] = True
-    root = {"n": draw(st.integers(0, n - 1))}
+    if fresh_mode and draw(st.sampled_from([0, 1, 2])) > 0:
+        # all nodes side by side under one list: siblings are serialized one after the other
+        nodes.append({"k": "list", "c": [{"n": i} for i in range(n)]})
+        root = {"n": n}
+    else:
+        root = {"n": draw(st.integers(0, n - 1))}
     return dict(kind="rt", policy=draw(st.sampled_from(["secure", "secure", "dummy"])), graph=dict(nodes=nodes, root=root))
 
 
 def fixed_cases():
-    """Seed-independent cases: each dangerous name under each naming tag with a permissive type policy."""
-    pol = dict(basic=True, types=sorted(_ALL_TYPES), modules=[A, PUB], instances_of=[A + ".Good"])
-    for name in DOTTED + CLASS_NAMES:
-        n = name.encode()
-        yield dict(kind="sec", policy=pol, expr=[b"function", n])
-        yield dict(kind="sec", policy=pol, expr=[b"class", n])
-        yield dict(kind="sec", policy=pol, expr=[n, [b"dictionary", [b"x", 1]]])
-        yield dict(kind="sec", policy=pol, expr=[b"instance", [b"class", n], [b"dictionary", [b"x", 1]]])
-        yield dict(kind="sec", policy=pol, expr=[b"method", "go", [b"None"], [b"class", n]])
-    for name in MODULE_NAMES:
-        yield dict(kind="sec", policy=pol, expr=[b"module", name.encode()])
+    """Seed-independent cases: every name of the universe under every naming tag, with permissive
+    type policies that differ in which modules / packages / classes they allow (complete small scope:
+    names x naming forms x module policies)."""
+    policies = [
+        dict(basic=True, types=sorted(_ALL_TYPES), modules=[A, PUB], instances_of=[A + ".Good"]),
+        # the package is allowed, its (unloaded) submodule is not
+        dict(basic=True, types=sorted(_ALL_TYPES), modules=[P], instances_of=[]),
+        dict(basic=True, types=sorted(_ALL_TYPES), modules=[A, P, PUB], instances_of=[A + ".Good", PUB + ".PubC"]),
+        # the unloaded submodule is allowed, its package is not
+        dict(basic=True, types=sorted(_ALL_TYPES), modules=[HID], instances_of=[]),
+    ]
+    names = sorted(set(DOTTED + CLASS_NAMES))
+    for pol in policies:
+        for name in names:
+            n = name.encode()
+            yield dict(kind="sec", policy=pol, expr=[b"function", n])
+            yield dict(kind="sec", policy=pol, expr=[b"class", n])
+            yield dict(kind="sec", policy=pol, expr=[n, [b"dictionary", [b"x", 1]]])
+            yield dict(kind="sec", policy=pol, expr=[b"instance", [b"class", n], [b"dictionary", [b"x", 1]]])
+            yield dict(kind="sec", policy=pol, expr=[b"instance", [b"function", n], [b"dictionary", [b"x", 1]]])
+            yield dict(kind="sec", policy=pol, expr=[b"method", "go", [b"None"], [b"class", n]])
+        for name in sorted(set(MODULE_NAMES)):
+            yield dict(kind="sec", policy=pol, expr=[b"module", name.encode()])
     # simple cyclic / shared graphs of every mutable kind
     for pol_name in ("secure", "dummy"):
         yield dict(kind="rt", policy=pol_name, graph=dict(nodes=[{"k": "list", "c": [{"n": 0}]}], root={"n": 0}))
